@@ -1,3 +1,4 @@
+import Tbx.Model.Arr
 /-
 Spec for C01 / C02 — what "the reported number is the maximum s-t flow value" and "the returned
 assignment is the canonical minimum cut" are checked against, as *executable* certificate checkers.
@@ -18,6 +19,7 @@ there is a set of nodes containing s but not t that no positive residual entry l
 `IsMaxFlowValue c s t value`: a flow of that value exists and no flow has a larger one.
 -/
 namespace Tbx.FlowSpec
+open Tbx
 
 /-- (source, target, capacity) -/
 abbrev E := Nat × Nat × Int
@@ -33,9 +35,6 @@ def nNodes (es : List E) : Nat := maxId es + 1
 
 def sumTo (n : Nat) (g : Nat → Int) : Int := ((List.range n).map g).sum
 def allTo (n : Nat) (p : Nat → Bool) : Bool := (List.range n).all p
-
-/-- net flow on (u,v) encoded by a residual graph -/
-def flowOf (es res : List E) (u v : Nat) : Int := capOf es u v - capOf res u v
 
 /-- one round of "add the heads of positive entries whose tail is already in the list" -/
 def grow (n : Nat) (res : List E) (cur : List Nat) : List Nat :=
@@ -54,64 +53,96 @@ def closedUnder (res : List E) (inS : Nat → Bool) : Bool :=
 
 def nonnegAll (res : List E) : Bool := res.all fun e => decide (0 ≤ e.2.2)
 
-def pairOK (n : Nat) (es res : List E) : Bool :=
-  allTo n fun u => allTo n fun v =>
-    decide (capOf res u v + capOf res v u = capOf es u v + capOf es v u)
+def pairOK (n : Nat) (c r : Nat → Nat → Int) : Bool :=
+  allTo n fun u => allTo n fun v => decide (r u v + r v u = c u v + c v u)
 
-def conservedOK (n : Nat) (es res : List E) (s t : Nat) : Bool :=
-  allTo n fun u => u == s || u == t || decide (sumTo n (flowOf es res u) = 0)
+def conservedOK (n : Nat) (c r : Nat → Nat → Int) (s t : Nat) : Bool :=
+  allTo n fun u => u == s || u == t || decide (sumTo n (fun v => c u v - r u v) = 0)
 
-def valueOf (n : Nat) (es res : List E) (s : Nat) : Int := sumTo n (flowOf es res s)
+def valueOf (n : Nat) (c r : Nat → Nat → Int) (s : Nat) : Int := sumTo n (fun v => c s v - r s v)
 
-/-- the max-flow certificate check (C01) -/
-def certOK (es : List E) (s t : Nat) (res : List E) (value : Int) : Bool :=
-  let n := nNodes es
+/-- the certificate check with the two capacity functions as parameters (only their values on
+    `[0,n) × [0,n)` are used); `res` is the list `r` was obtained from -/
+def certCore (n : Nat) (c r : Nat → Nat → Int) (s t : Nat) (res : List E) (value : Int) : Bool :=
+  let cl := closure n res s
   decide (s < n) && decide (t < n) && decide (s ≠ t) &&
-  nonnegAll res && pairOK n es res && conservedOK n es res s t &&
-  decide (value = valueOf n es res s) &&
-  !(closure n res s).contains t && closedUnder res (fun v => (closure n res s).contains v)
+  nonnegAll res && pairOK n c r && conservedOK n c r s t &&
+  decide (value = valueOf n c r s) &&
+  !cl.contains t && closedUnder res (fun v => cl.contains v)
+
+/-- the max-flow certificate check (C01), reference version: capacities are list sums -/
+def certOK (es : List E) (s t : Nat) (res : List E) (value : Int) : Bool :=
+  certCore (nNodes es) (capOf es) (capOf res) s t res value
+
+/-- n×n matrix of merged capacities (row-major); entries with an id ≥ n are ignored -/
+def matOf (n : Nat) (es : List E) : Array Int :=
+  es.foldl (fun M e =>
+    if e.1 < n ∧ e.2.1 < n then st M (e.1 * n + e.2.1) (gt M (e.1 * n + e.2.1) + e.2.2) else M)
+    (Array.replicate (n * n) 0)
+
+def look (n : Nat) (M : Array Int) (u v : Nat) : Int := gt M (u * n + v)
+
+/-- the same check with the capacity sums tabulated once (what the judge runs;
+    `Tbx.FlowTheory.certFast_eq`: it is equal to `certOK`) -/
+def certFast (es : List E) (s t : Nat) (res : List E) (value : Int) : Bool :=
+  let n := nNodes es
+  let C := matOf n es
+  let R := matOf n res
+  certCore n (look n C) (look n R) s t res value
 
 /-- capacity of the *input* edges that lead from the set to its complement -/
 def cutCapL (es : List E) (inA : Nat → Bool) : Int :=
   (es.map fun e => if inA e.1 && !inA e.2.1 then e.2.2 else 0).sum
 
-/-- the canonical-min-cut check (C02): the bit vector `bits` (one bit per node) contains s, not t,
-    the input edges leaving it carry exactly `value`, no positive residual entry leaves it, and every
-    member is reachable from s through positive residual entries -/
-def minCutOK (es : List E) (s t : Nat) (res : List E) (value : Int) (bits : List Bool) : Bool :=
+/-- the parts of the canonical-min-cut check (C02) that come on top of the certificate: the bit vector
+    `bits` (one bit per node) contains s, not t, the input edges leaving it carry exactly `value`, no
+    positive residual entry leaves it, and every member is reachable from s through positive entries -/
+def cutPart (es : List E) (s t : Nat) (res : List E) (value : Int) (bits : List Bool) : Bool :=
   let n := nNodes es
   let inA := fun v => bits.getD v false
-  certOK es s t res value &&
+  let cl := closure n res s
   decide (bits.length = n) && inA s && !inA t &&
   decide (cutCapL es inA = value) &&
   closedUnder res inA &&
-  allTo n (fun v => !inA v || (closure n res s).contains v)
+  allTo n (fun v => !inA v || cl.contains v)
 
-/-- which conjunct of `certOK` fails first (diagnostic text for the judge; `certOK` decides) -/
+/-- the canonical-min-cut check (C02), reference version -/
+def minCutOK (es : List E) (s t : Nat) (res : List E) (value : Int) (bits : List Bool) : Bool :=
+  certOK es s t res value && cutPart es s t res value bits
+
+/-- what the judge runs (equal to `minCutOK`: `Tbx.FlowTheory.minCutFast_eq`) -/
+def minCutFast (es : List E) (s t : Nat) (res : List E) (value : Int) (bits : List Bool) : Bool :=
+  certFast es s t res value && cutPart es s t res value bits
+
+/-- which conjunct of `certFast` fails first (diagnostic text for the judge; `certFast` decides) -/
 def certWhy (es : List E) (s t : Nat) (res : List E) (value : Int) : String :=
   let n := nNodes es
+  let c := look n (matOf n es)
+  let r := look n (matOf n res)
+  let cl := closure n res s
   if !(decide (s < n) && decide (t < n) && decide (s ≠ t)) then "source/target out of range or equal"
   else if !nonnegAll res then "a residual capacity is negative"
-  else if !pairOK n es res then "r(u,v)+r(v,u) differs from c(u,v)+c(v,u) for some pair"
-  else if !conservedOK n es res s t then "flow is not conserved at some inner node"
-  else if !decide (value = valueOf n es res s) then
-    s!"reported value {value} is not the net outflow {valueOf n es res s} of the source"
-  else if (closure n res s).contains t then
+  else if !pairOK n c r then "r(u,v)+r(v,u) differs from c(u,v)+c(v,u) for some pair"
+  else if !conservedOK n c r s t then "flow is not conserved at some inner node"
+  else if !decide (value = valueOf n c r s) then
+    s!"reported value {value} is not the net outflow {valueOf n c r s} of the source"
+  else if cl.contains t then
     s!"the target is still reachable in the residual graph (flow {value} is not maximum)"
-  else if !closedUnder res (fun v => (closure n res s).contains v) then "closure not closed (checker bug)"
+  else if !closedUnder res (fun v => cl.contains v) then "closure not closed (checker bug)"
   else "ok"
 
 def minCutWhy (es : List E) (s t : Nat) (res : List E) (value : Int) (bits : List Bool) : String :=
   let n := nNodes es
   let inA := fun v => bits.getD v false
-  if !certOK es s t res value then "certificate: " ++ certWhy es s t res value
+  let cl := closure n res s
+  if !certFast es s t res value then "certificate: " ++ certWhy es s t res value
   else if !decide (bits.length = n) then s!"assignment has {bits.length} bits for {n} nodes"
   else if !inA s then "assignment does not contain the source"
   else if inA t then "assignment contains the target"
   else if !decide (cutCapL es inA = value) then
     s!"input edges leaving the assignment carry {cutCapL es inA}, reported flow is {value}"
   else if !closedUnder res inA then "a positive residual edge leaves the assignment"
-  else if !allTo n (fun v => !inA v || (closure n res s).contains v) then
+  else if !allTo n (fun v => !inA v || cl.contains v) then
     "assignment contains a node that is not reachable from the source in the residual graph (not the minimal min cut)"
   else "ok"
 
